@@ -299,6 +299,16 @@ func (d *hoDriver) height() error {
 	reqs = append(reqs, bp.Bridge.Encode()...)
 	a.C.Eng.NextRequests = reqs
 	b.C.Eng.NextRequests = reqs
+	// now and then the execution block is LARGE (hundreds of kilobytes of user transactions); the blocks after it are small
+	// again. The honest proposal must be accepted and its block message must succeed whatever the size of this or of the
+	// previous execution block.
+	var userTxs [][]byte
+	if rare(12) {
+		big := make([]byte, 300_000+r.Intn(400_000))
+		r.Read(big)
+		userTxs = [][]byte{big}
+	}
+	a.C.Eng.NextUserTxs, b.C.Eng.NextUserTxs, d.m.C.Eng.NextUserTxs = userTxs, userTxs, userTxs
 
 	// Mempool floods (C08: "whatever the mempool contents ... stays within the 16-transaction cap"): now and then more valid
 	// relayer transactions than a block can carry are waiting; while they drain, no other relayer transaction is produced
